@@ -1,38 +1,54 @@
 #!/usr/bin/env python3
 """Run every kept seeded change against its property's check (scratch worktree, VERIF_REPO) and
-record the outcome in seeded/<id>/meta.json (caught_by) and seeded/RESULTS.md."""
+record the outcome in seeded/<id>/meta.json (caught_by) and seeded/RESULTS.md.
+SEED_LANES=<n> runs n seeds concurrently."""
 import json, os, subprocess, sys, time
+from concurrent.futures import ThreadPoolExecutor
 V = "/verif"
 only = sys.argv[1:]
 m = json.load(open(V + "/MANIFEST.json"))
 claimed = {c["property_id"] for c in m["checks"]}
-rows = []
-for sid in sorted(os.listdir(V + "/seeded")):
+EXTRA = {"C10b": ["C09"], "C09b": []}   # additional checks to try for a seed
+
+def one(sid):
     d = os.path.join(V, "seeded", sid)
-    if not os.path.isdir(d) or (only and sid not in only):
-        continue
     prop = sid[:3]
     meta = json.load(open(d + "/meta.json"))
     if prop not in claimed:
-        rows.append((sid, prop, "property not claimed yet", "")); continue
+        return (sid, prop, "property not claimed", "")
     t = time.time()
-    p = subprocess.run([V + "/tools/try_seed.sh", sid, d + "/patch.diff", prop], stdout=subprocess.PIPE, stderr=subprocess.STDOUT, text=True)
-    out = p.stdout
-    viol = [l for l in out.split("\n") if l.startswith("VIOLATION")]
-    if "patch failed" in out:
-        res = "patch does not apply to current HEAD"
-    elif viol:
-        nf = all("no-failing-input-found" in l for l in viol)
-        res = "CAUGHT by ./check %s quick (%d VIOLATION line(s)%s)" % (prop, len(viol), ", no-failing-input-found" if nf else ", with concrete replay")
-    else:
-        res = "MISSED by ./check %s quick" % prop
+    res_all = []
+    for chk in [prop] + EXTRA.get(sid, []):
+        p = subprocess.run([V + "/tools/try_seed.sh", sid, d + "/patch.diff", chk], stdout=subprocess.PIPE, stderr=subprocess.STDOUT, text=True)
+        out = p.stdout
+        viol = [l for l in out.split("\n") if l.startswith("VIOLATION")]
+        if "patch failed" in out:
+            res = "patch does not apply to current HEAD"
+        elif viol:
+            nf = all("no-failing-input-found" in l for l in viol)
+            res = "CAUGHT by ./check %s quick (%d VIOLATION line(s)%s)" % (chk, len(viol), ", no-failing-input-found" if nf else ", with concrete replay")
+        else:
+            res = "MISSED by ./check %s quick" % chk
+        res_all.append(res)
+    res = "; ".join(res_all)
     meta["caught_by"] = res
     meta["tried_at_repo_head"] = subprocess.run(["git", "-C", "/repo", "log", "--oneline", "-1"], stdout=subprocess.PIPE, text=True).stdout.strip()
     json.dump(meta, open(d + "/meta.json", "w"), indent=1)
-    rows.append((sid, prop, res, "%.0fs" % (time.time() - t)))
     print(sid, res, flush=True)
+    return (sid, prop, res, "%.0fs" % (time.time() - t))
+
+sids = [s for s in sorted(os.listdir(V + "/seeded")) if os.path.isdir(os.path.join(V, "seeded", s)) and (not only or s in only)]
+# seeds of one property run one after the other (their checks regenerate the same coq/gen files);
+# different properties may run concurrently
+groups = {}
+for s_ in sids:
+    groups.setdefault(s_[:3], []).append(s_)
+def grp(g):
+    return [one(x) for x in g]
+with ThreadPoolExecutor(max_workers=int(os.environ.get("SEED_LANES", "1"))) as ex:
+    rows = sorted(r for rs in ex.map(grp, list(groups.values())) for r in rs)
 if not only:
     with open(V + "/seeded/RESULTS.md", "w") as f:
-        f.write("# Seeded breaking changes vs checks\n\n| seed | property | result | time |\n|---|---|---|---|\n")
+        f.write("# Seeded breaking changes vs checks\n\nEach seed was written by an independent sub-agent that saw only the property text; confirmed by tools/validate_seed.sh; tried with tools/try_seed.sh (check run with VERIF_REPO=<scratch worktree carrying the patch>).\n\n| seed | property | result | time |\n|---|---|---|---|\n")
         for r in rows:
             f.write("| %s | %s | %s | %s |\n" % r)
